@@ -156,6 +156,7 @@ def worker(item: Any, res: runner.Result) -> None:  # pylint: disable=too-many-l
     from mc import harness  # pylint: disable=import-outside-toplevel
     from tealer.analyses.utils.stack_ast_builder import construct_stack_ast, compute_equations, KnownStackValue, UnknownStackValue  # pylint: disable=import-outside-toplevel
     from tealer.teal.instructions import instructions as I  # pylint: disable=import-outside-toplevel
+    from tealer.utils.analyses import is_int_push_ins  # pylint: disable=import-outside-toplevel
 
     if item[0] == "tree":
         code = item[1]
@@ -247,6 +248,29 @@ def worker(item: Any, res: runner.Result) -> None:  # pylint: disable=too-many-l
                 got.append((pos[0] if pos else -1, a.ins_out_values_index))
         if got != exp_args:
             res.violation("C11.operand-producer", item, opcode=op.name, line=line, position=k, expected=exp_args, actual=got)
+        # an operand the tool reads as an integer literal carries the value really pushed in that position
+        for a in args:
+            if isinstance(a, UnknownStackValue):
+                continue
+            try:
+                is_int, val = is_int_push_ins(a.instruction)
+            except BaseException:  # pylint: disable=broad-except
+                continue
+            if not is_int or not isinstance(val, int):
+                continue
+            pos = [j for j, x in enumerate(bb.instructions) if x is a.instruction]
+            if not pos or pos[0] == 0:
+                continue
+            p_op, p_imms = parse_seq_line(seq[pos[0] - 1])
+            actual = None
+            if p_op.name in ("int", "pushint") and p_imms and p_imms[0].isdigit():
+                actual = int(p_imms[0])
+            elif p_op.name == "pushints" and a.ins_out_values_index < len(p_imms) and p_imms[a.ins_out_values_index].isdigit():
+                actual = int(p_imms[a.ins_out_values_index])
+            res.count("literal_operands_checked")
+            if actual is None or actual != val:
+                res.violation("C11.literal-value", item, opcode=op.name, line=line, position=k, producer=seq[pos[0] - 1],
+                              out_index=a.ins_out_values_index, tool_reads=val, pushed=actual)
         for o in range(nq):
             stack.append((k, o))
         sig.append((np, nq))
